@@ -12,6 +12,7 @@ import (
 	"strings"
 	"time"
 
+	"svcheck/internal/normalize"
 	"svcheck/internal/report"
 	"svcheck/internal/rules"
 	"svcheck/internal/world"
@@ -42,7 +43,39 @@ func main() {
 	jsonOut := flag.Bool("json", false, "with -rule: print the obligations as JSON")
 	emitKnown := flag.Bool("emit-known", false, "triage aid: print a known_findings.jsonl candidate line for every unlisted violation")
 	noKnown := flag.Bool("no-known", false, "debug: ignore known_findings.jsonl")
+	emitFuncs := flag.Bool("emit-known-funcs", false, "print the function list for internal/normalize/known_funcs.txt from the current tree")
+	emitFields := flag.Bool("emit-known-fields", false, "print internal/world/known_fields.txt from the current tree")
+	showNorm := flag.Bool("show-normalized", false, "debug: print what the source-level pre-pass did (and the transformed files)")
 	flag.Parse()
+
+	if *emitFuncs {
+		s, err := normalize.EmitKnown(world.RepoDir())
+		if err != nil {
+			fmt.Fprintln(os.Stderr, err)
+			os.Exit(2)
+		}
+		fmt.Print(s)
+		return
+	}
+	if *showNorm {
+		env := append(os.Environ(), "GOFLAGS=-mod=mod", "GOPROXY=off", "GOSUMDB=off", "GOTOOLCHAIN=local", "GOWORK=off")
+		abs, _ := filepath.Abs(world.RepoDir())
+		r, err := normalize.Run(abs, env)
+		if err != nil {
+			fmt.Println("error:", err)
+		}
+		fmt.Println("unknown:", strings.Join(r.Unknown, "\n  "))
+		fmt.Println("inlined:\n  " + strings.Join(r.Inlined, "\n  "))
+		fmt.Println("removed:", strings.Join(r.Removed, ", "))
+		fmt.Println("skipped:\n  " + strings.Join(r.Skipped, "\n  "))
+		fmt.Println("problems:\n  " + strings.Join(r.Problems, "\n  "))
+		if os.Getenv("SVCHECK_DUMP") != "" {
+			for fn, b := range r.Overlay {
+				fmt.Printf("===== %s\n%s\n", fn, b)
+			}
+		}
+		return
+	}
 
 	if *manifest {
 		printManifest()
@@ -89,6 +122,10 @@ func main() {
 		os.Exit(code)
 	}
 	loadS := time.Since(start).Seconds()
+	if *emitFields {
+		fmt.Print(w.EmitKnownFields())
+		return
+	}
 
 	if *rule != "" {
 		r := rules.Run(w, *rule)
